@@ -95,6 +95,10 @@ partial def loop (h : IO.FS.Stream) (s : St) : IO Unit := do
   | "decl" :: n :: "=" :: tree =>
       let (args, _) := parse tree []
       IO.println "ok"; loop h { s with decls := (s.decls.filter (·.1 != n)) ++ [(n, args)] }
+  | "dpby" :: "=" :: tree =>            -- directlyProvides(plain object, …) then directlyProvidedBy: the arguments as a declaration, less `Interface`
+      let (args, _) := parse tree []
+      let s' : St := { s with decls := (s.decls.filter (fun (e : String × List Arg) => e.1 != "#dp")) ++ [("#dp", args)] }
+      IO.println (shw ((s'.iter "#dp").filter (· != 0))); loop h s
   | ["iter", a] => IO.println (shw (s.iter a)); loop h s
   | ["memall", a] => IO.println (shw ((s.iter a).toArray.qsort (· < ·)).toList); loop h s
   | ["mem", a, i] => IO.println (if (s.iter a).contains i.toNat! then "1" else "0"); loop h s
